@@ -1,0 +1,42 @@
+//go:build verif
+
+// Contracts for the presentation-format printers (types.go, defaults.go, svcb.go, edns.go).  Comment-only file.
+
+package dns
+
+// String() never panics, whatever octets the record was unpacked from
+//@ func sprintName [C05]
+//@   loop 1 invariant 0 <= i
+//@ func sprintTxtOctet [C05]
+//@   loop 1 invariant 0 <= i
+//@ func sprintTxt [C05]
+//@   loop 2 invariant 0 <= j
+//@ func writeTXTStringByte [C05]
+//@ func (Type).String [C05]
+//@ func (Class).String [C05]
+//@ func (*RR_Header).String [C05]
+//@ func cmToM [C05]
+//@ func rfc3597Header [C05]
+//@ func (*APLPrefix).str [C05]
+//@ func TimeToString [C05]
+//@ func saltToString [C05]
+//@ func (SVCBKey).String [C05]
+//@ iface EDNS0.String [C05]
+//@ iface SVCBKeyValue.String [C05]
+
+// fmt's zero-padded fixed-width hexadecimal verbs yield at least the requested number of digits (trusted)
+//@ func euiToString [C05]
+//@   assume at "hex = hex[0:2] + @1" w16: len(hex) >= 16
+//@   assume at "hex = hex[0:2] + @2" w12: len(hex) >= 12
+//@ func (*NID).String [C05]
+//@   assume at "node[0:4] + " w16: len(node) >= 16
+//@ func (*L64).String [C05]
+//@   assume at "node[0:4] + " w16: len(node) >= 16
+
+// an SVCB/HTTPS record holds no nil parameter (unpacking and parsing never produce one)
+//@ func (*SVCB).String [C05]
+//@   assume at "e.Key().String() + " nonnil: e != nil
+
+// RFC 3597 generic form: the length printed after \# is the number of RDATA octets (half the hex digits)
+//@ func (*RFC3597).String [C05]
+//@   exit rdlen: callarg("Itoa", 0) == len(rr.Rdata) / 2
